@@ -271,6 +271,15 @@ func c14filter(c *an.Ctx) {
 			}
 		}
 		c.Check(ret, fn, "lookup returns the filtered producers", fn.Pos(), "", "/lookup returns producers that did not pass FilterByActive")
+		// and what is filtered is the registry's answer itself: anything dropped before the activity filter (a
+		// de-duplication by address, say) can drop the live entry and keep the one the filter then removes
+		direct := false
+		for _, fc := range an.CallsTo(fn, fba) {
+			if fp != nil && an.OriginsAll(recvArg(fc), func(o ssa.Value) bool { return an.CallResultOf(o, fp) != nil }) {
+				direct = true
+			}
+		}
+		c.Check(direct, fn, "lookup filters the registry's answer", fn.Pos(), "", "/lookup transforms the producer list before FilterByActive sees it: an entry removed there may be the only live one of its kind (a silent look-alike registered with the same address hides the bystander that is still pinging)")
 	}
 	// FilterByActive: skip when inactive or tombstoned
 	{
